@@ -55,6 +55,26 @@ func writeCorpus(dir string) {
 		"max-int32": {"oversized numbers: every limit at MaxInt32 (uint32 / int conversions)",
 			withSchema(SchemaW{Name: hx("a"), Strategy: hx("globalCount"), TB: &TBW{QPS: 2147483647, Burst: 2147483647}, GTB: &TBW{QPS: 2147483647, Burst: 2147483647}})},
 	}
+	// UPDATE admissions (old object = the stored one)
+	oldObj := base("https://127.0.0.1:6443")
+	badGate := base("https://127.0.0.1:6443")
+	badGate.Annotations = &[][2]string{{hx(gateKey), hx("NoSuchFeature=true")}}
+	badLabel := base("https://127.0.0.1:6443")
+	badLabel.Labels = map[string]string{"a b": "x"}
+	updates := map[string]struct {
+		origin string
+		w      ClusterW
+	}{
+		"update-unchanged-spec-bad-feature-gate": {"seeded change C16/m2: Validate returned nil on an UPDATE with unchanged spec; the invalid feature-gate annotation was stored and ClusterInfo.Sync failed", badGate},
+		"update-unchanged-spec-bad-label":        {"seeded change C16/m2: object-meta validation skipped on a metadata-only update", badLabel},
+	}
+	for name, f := range updates {
+		o := oldObj
+		b, _ := json.MarshalIndent(map[string]interface{}{"origin": f.origin, "case": Case{Cluster: f.w, Prev: &o, Op: "update"}}, "", " ")
+		if err := os.WriteFile(filepath.Join(dir, name+".json"), b, 0o644); err != nil {
+			panic(err)
+		}
+	}
 	for name, f := range files {
 		b, _ := json.MarshalIndent(map[string]interface{}{"origin": f.origin, "case": Case{Cluster: f.w}}, "", " ")
 		if err := os.WriteFile(filepath.Join(dir, name+".json"), b, 0o644); err != nil {
